@@ -5,7 +5,7 @@
    Logger/Autofix machine of C04 -- that a fixed point of --autofix is quiet.
    Convergence of ALL 70+ fix sites together is explored by the whole-run part
    of the check, not proved. *)
-From PV Require Import Lib.Bytes Model.Settle Proofs.Settle Model.Modes Proofs.Modes.
+From PV Require Import Lib.Bytes Model.Settle Proofs.Settle Proofs.Settle2 Model.Modes Proofs.Modes.
 Open Scope N_scope.
 
 (* if each fixer establishes a post-condition under which it is the identity,
@@ -70,7 +70,98 @@ Theorem C16_fixed_point_quiet : forall only ls (cs : list check),
 Proof. exact fixed_point_quiet. Qed.
 Print Assumptions C16_fixed_point_quiet.
 
+(* ---------- round 4: more fixers (Model/Settle.v, second half) ---------- *)
+
+(* Lines.CheckCvsID with the arguments of each kind of call site (distinfo/patch: no
+   prefix; makefiles: #[\t ]+ / "# "; PLIST: "@comment "): never panics on a file with
+   a line, and what it produces it leaves alone *)
+Theorem C16_cvsid_kinds_total : forall (k : idkind) (ls : list str), ls <> [] -> check_cvsid k ls <> None.
+Proof. exact check_cvsid_total. Qed.
+Print Assumptions C16_cvsid_kinds_total.
+Theorem C16_cvsid_kinds_settle : forall (k : idkind) (ls ls' : list str),
+  check_cvsid k ls = Some ls' -> check_cvsid k ls' = Some ls'.
+Proof. exact check_cvsid_settles. Qed.
+Print Assumptions C16_cvsid_kinds_settle.
+
+(* CheckLinesPlist (CVS id, empty-line deletion, ${PKGMANDIR}, manual-page .gz, @unexec rmdir): for
+   every PLIST with at least one line the pass neither panics nor runs out of fuel *)
+Theorem C16_plist_pass_total : forall ls : list str, ls <> [] -> exists o, plist_pass ls = POk o.
+Proof. exact plist_pass_total. Qed.
+Print Assumptions C16_plist_pass_total.
+
+(* for ALL PLISTs: every line for which the ".gz extension is unnecessary" fix is offered
+   is fixed by the one pass, wherever it stands and whatever else the file contains
+   (no per-file state: the pass distributes over ++) *)
+Theorem C16_gz_all_fixed_in_one_pass : forall (a : list str) (l : str) (b : list str),
+  gz_offered l = true ->
+  exists a' b', plist_lines_fix a = Some a' /\ plist_lines_fix b = Some b' /\
+                plist_lines_fix (a ++ l :: b) = Some (a' ++ drop_last3 l :: b').
+Proof. exact gz_all_fixed_in_one_pass. Qed.
+Print Assumptions C16_gz_all_fixed_in_one_pass.
+
+(* "one pass of the PLIST fixers reaches the fixed point" is FALSE of the faithful model:
+   man/man1/a.1.gz.gz loses one .gz per pass, and ${PKGMANDIR}/man1/a.1.gz becomes
+   man/man1/a.1.gz in the first pass (checkPath goes on with the old path) and
+   man/man1/a.1 in the second *)
+Theorem C16_plist_one_pass_refuted : ~ plist_one_pass_full.
+Proof. exact plist_one_pass_refuted. Qed.
+Print Assumptions C16_plist_one_pass_refuted.
+(* it holds for every PLIST in which each line, once fixed, is left alone (a decidable
+   condition on single lines; the two witnesses above violate exactly it) *)
+Theorem C16_plist_settles_partial : forall ls o : list str,
+  forallb line_settles ls = true -> plist_pass ls = POk o -> plist_pass o = POk o.
+Proof. exact plist_settles_partial. Qed.
+Print Assumptions C16_plist_settles_partial.
+Theorem C16_plist_guard_needed :
+  forallb line_settles plist_stacked_gz = false /\ forallb line_settles plist_pkgmandir_gz = false.
+Proof. exact plist_guard_needed. Qed.
+Print Assumptions C16_plist_guard_needed.
+
+(* for ALL PLISTs: the first pass establishes the CVS id, and from then on every pass either
+   leaves the file alone or makes it strictly smaller (bytes + lines): repeated passes reach
+   the fixed point, after at most plist_measure passes *)
+Theorem C16_plist_pass_header : forall ls o : list str, plist_pass ls = POk o ->
+  exists l0 r, o = l0 :: r /\ is_cvsid_k IdPlist l0 = true.
+Proof. exact plist_pass_header. Qed.
+Print Assumptions C16_plist_pass_header.
+Theorem C16_plist_pass_shrinks : forall (l0 : str) (r o : list str),
+  is_cvsid_k IdPlist l0 = true -> plist_pass (l0 :: r) = POk o ->
+  o = l0 :: r \/ (plist_measure o < plist_measure (l0 :: r))%nat.
+Proof. exact plist_pass_shrinks. Qed.
+Print Assumptions C16_plist_pass_shrinks.
+
+(* MkLines.CheckUsedBy with SplitToParagraphs, for ALL files (first paragraphs with code,
+   "#" separators, several used-by paragraphs, conflicts ...) and all names without
+   white-space: what the fix produces is left alone by the check *)
+Theorem C16_used_by_settles : forall (name : str) (ls ls' : list str), name_ok name ->
+  used_by name ls = Some ls' -> used_by name ls' = Some ls'.
+Proof. exact used_by_settles. Qed.
+Print Assumptions C16_used_by_settles.
+Theorem C16_used_by_inserts : forall (name : str) (ls ls' : list str),
+  used_by name ls = Some ls' -> ls' = ls \/ In (used_by_prefix ++ name) ls'.
+Proof. exact used_by_inserts. Qed.
+Print Assumptions C16_used_by_inserts.
+
 (* non-vacuity *)
+Example C16_line_settles_examples :
+  line_settles [109;97;110;47;109;97;110;49;47;97;46;49;46;103;122] = true                       (* man/man1/a.1.gz *)
+  /\ line_settles [36;123;80;76;73;83;84;46;120;125;109;97;110;47;99;97;116;49;47;97;46;48;46;103;122] = true   (* ${PLIST.x}man/cat1/a.0.gz *)
+  /\ gz_offered [109;97;110;47;109;97;110;49;47;97;46;49;46;103;122] = true.
+Proof. repeat split; vm_compute; reflexivity. Qed.
+Example C16_unexec_rmdir_example :
+  plist_line_fix [64;117;110;101;120;101;99;32;114;109;100;105;114;32;37;68;47;115;104;97;114;101;47;120] = LDelete                 (* @unexec rmdir %D/share/x *)
+  /\ plist_line_fix [64;117;110;101;120;101;99;32;36;123;82;77;68;73;82;125;32;37;68;47;121;32;124;124;32;36;123;84;82;85;69;125] = LKeep [64;117;110;101;120;101;99;32;36;123;82;77;68;73;82;125;32;37;68;47;121;32;124;124;32;36;123;84;82;85;69;125].
+Proof. split; vm_compute; reflexivity. Qed.
+Example C16_name_ok_example : name_ok [99;97;116;47;112;47;77;97;107;101;102;105;108;101].      (* cat/p/Makefile *)
+Proof. split; [discriminate|vm_compute; reflexivity]. Qed.
+(* a Makefile.common of three empty lines has no paragraph: left alone *)
+Example C16_used_by_no_paragraph_example : used_by [120] only_separators = Some only_separators.
+Proof. exact used_by_no_paragraph_example. Qed.
+(* a name with a blank is never recognised again: name_ok is needed *)
+Example C16_used_by_name_guard_needed :
+  exists ls', used_by [97;32;98] [[35;32;120];[];[120;61;121]] = Some ls' /\ used_by [97;32;98] ls' <> Some ls'.
+Proof. exact used_by_name_guard_needed. Qed.
+
 Example C16_header_example :
   fix_header [] [[120]] = [cvsid_line []; []; [120]] /\ header_ok [] (fix_header [] [[120]]) = true.
 Proof. split; vm_compute; reflexivity. Qed.
